@@ -161,4 +161,21 @@ def findWriter (ws : List CsvWriter) (name : String) : CsvWriter :=
 def findCommand (cs : List Command) (name : String) : Command :=
   (cs.find? (·.name == name)).getD ⟨"missing", "", "", "", [], [], "", "", [], []⟩
 
+/-! ### flag tables (`Gen.C03.commandFlags`, `commandFlagReads`) -/
+
+/-- `(kind, name, aliases, default as spelled in the source)` -/
+abbrev FlagDecl := String × String × List String × String
+
+def flagOf (tbl : List (String × List FlagDecl)) (cmd name : String) : Option FlagDecl :=
+  ((tbl.find? (·.1 == cmd)).map (·.2)).bind fun fs => fs.find? (·.2.1 == name)
+
+/-- the command lists the shared flag variable / helper call `src` -/
+def hasShared (tbl : List (String × List FlagDecl)) (cmd src : String) : Bool :=
+  match flagOf tbl cmd src with
+  | some (k, _, _, _) => k == "shared"
+  | none => false
+
+def readOf (tbl : List (String × List (String × String))) (cmd var : String) : Option String :=
+  ((tbl.find? (·.1 == cmd)).map (·.2)).bind fun rs => (rs.find? (·.1 == var)).map (·.2)
+
 end Rare.C03
